@@ -174,8 +174,8 @@ LISTEN_INVS = ["Bounded", "NoStranding", "TimeoutOnlyWhenIdleLongEnough", "Never
                "NoTimeoutWithStopAndZeroIdle", "OkOnlyByStop", "ReturnAfterDrain", "UnlinkAfterDrain"]
 
 
-def listen_model(res, initial, mx, njobs, has_stop, idle, tag, live=False):
-    consts = dict(pool_consts(initial, mx, njobs), HasStop=has_stop, IdleTicks=idle, MaxTime=max(2 * idle + 2, 3))
+def listen_model(res, initial, mx, njobs, has_stop, idle, tag, live=False, crash=0):
+    consts = dict(pool_consts(initial, mx, njobs, crash=crash), HasStop=has_stop, IdleTicks=idle, MaxTime=max(2 * idle + 2, 3))
     del consts["Emit"]
     if live:
         cfg = write_cfg(os.path.join(res.wd, "MC_Listen_live_%s.cfg" % tag), spec="LFairSpec", constants=consts,
@@ -236,6 +236,10 @@ def check_C15(tier):
                     continue
                 listen_model(res, i, m, n, has_stop, idle, "%d_%d_%d_%s_%d" % (i, m, n, "s" if has_stop else "n", idle))
     listen_model(res, 1, 2, 2, True, 1, "live", live=True)
+    # connection handlers that end by panicking (LCrash): the loop's clauses hold as for any other way a connection ends
+    listen_model(res, 1, 2, 2, True, 1, "crash_s1", crash=2)
+    listen_model(res, 1, 1, 2, False, 1, "crash_n1", crash=1)
+    listen_model(res, 1, 2, 2, True, 1, "crash_live", live=True, crash=1)
     # (2) the real listen() under the scenario driver; probes + driver events in one trace
     fails, total, events, traces = run_parallel_vh(vh, "listen", 8, res.wd, ["--reps=%d" % (4 if thorough else 1)], "listen-trace")
     res.add_failures(fails, "scenarios")
